@@ -55,18 +55,37 @@ static void vh_release(void* p)
 	vh_live[i] = vh_live[--vh_nlive];
 }
 
+/* optional private bump arena: while monitoring, the library's allocations are served from it, so that two executions
+   started from the same process state get IDENTICAL block addresses (memWipe's pattern depends on addresses) */
+static unsigned char* vh_arena; static size_t vh_arena_size, vh_arena_off;
+static void* vh_arena_alloc(size_t n)
+{
+	size_t need = (n + 15) & ~(size_t)15;
+	void* p;
+	if (need == 0) need = 16;
+	if (vh_arena_off + need > vh_arena_size) { ++vh_overflow; return 0; }
+	p = vh_arena + vh_arena_off; vh_arena_off += need;
+	return p;
+}
+static int vh_in_arena(const void* p)
+{
+	return vh_arena && (const unsigned char*)p >= vh_arena && (const unsigned char*)p < vh_arena + vh_arena_size;
+}
+void vh_mon_arena(unsigned char* arena, size_t size) { vh_arena = arena; vh_arena_size = size; vh_arena_off = 0; }
+
 void* __wrap_malloc(size_t n)
 {
 	void* p;
 	if (!vh_on) return __real_malloc(n);
 	if (++vh_count == vh_fail_at) { ++vh_failed; return 0; }
-	p = __real_malloc(n);
+	p = vh_arena ? vh_arena_alloc(n) : __real_malloc(n);
 	if (p) vh_track(p, n);
 	return p;
 }
 void __wrap_free(void* p)
 {
 	if (vh_on && p) vh_release(p);
+	if (vh_in_arena(p)) return;
 	__real_free(p);
 }
 void* __wrap_realloc(void* p, size_t n)
@@ -76,7 +95,7 @@ void* __wrap_realloc(void* p, size_t n)
 	if (!vh_on) return __real_realloc(p, n);
 	if (++vh_count == vh_fail_at) { ++vh_failed; return 0; }
 	/* always move: allocate, copy, snapshot+free the old block (realloc that moves is the worst case) */
-	q = __real_malloc(n);
+	q = vh_arena ? vh_arena_alloc(n) : __real_malloc(n);
 	if (!q) return 0;
 	if (p)
 	{
@@ -86,7 +105,7 @@ void* __wrap_realloc(void* p, size_t n)
 		else old = n; /* unknown block: cannot happen for blocks allocated while monitoring */
 		memcpy(q, p, old < n ? old : n);
 		vh_release(p);
-		__real_free(p);
+		if (!vh_in_arena(p)) __real_free(p);
 	}
 	vh_track(q, n);
 	return q;
@@ -112,7 +131,7 @@ void vh_mon_stop(long out[8])
 void vh_mon_reap(void)
 {
 	int i;
-	for (i = 0; i < vh_nlive; ++i) __real_free(vh_live[i].p);
+	for (i = 0; i < vh_nlive; ++i) if (!vh_in_arena(vh_live[i].p)) __real_free(vh_live[i].p);
 	vh_nlive = 0;
 }
 
